@@ -3,6 +3,7 @@ package sync
 import (
 	"sync"
 
+	"github.com/plgd-dev/go-coap/v3/pkg/verifhook"
 	"golang.org/x/exp/maps" // TODO: replace with standard maps package as soon as Go dependency hits 1.21
 )
 
@@ -108,6 +109,7 @@ func (m *Map[K, V]) Range(f func(key K, value V) bool) {
 	defer m.mutex.RUnlock()
 	for key, value := range m.data {
 		m.mutex.RUnlock()
+		verifhook.Point("sync.Map.Range.beforeCallback")
 		ok := f(key, value)
 		m.mutex.RLock()
 		if !ok {
